@@ -147,3 +147,14 @@ def run(ctx):
     # (6) cancellations for abandoned calls are transmitted before the close: the guard's request to cancel is always queued (what is queued is drained, clause 1)
     from .common import cancel_always_enqueues
     cancel_always_enqueues(ctx, 'C10.cancelq')
+    # (7) "transmits every queued request and cancellation, then closes": the dispatch never goes idle while one of its two queues may still hold an item it
+    # has not been woken for (same exploration as C02 / C03, shared through the cache)
+    from .wake import source_jobs, pending_states, source_ok
+    poll_, reach_, wjobs = source_jobs(F, P, ('Q', 'K'))
+    wres = run_jobs(F, wjobs)
+    for src, nm in (('Q', 'request queue'), ('K', 'cancellation queue')):
+        keys = pending_states(wres[src])
+        badk = [k for k in keys if not source_ok(src, k)]
+        R.ob('C10.drain', ('client dispatch poll', nm + ' registered on every idle return'), not badk and len(keys) >= 2,
+             'the dispatch returns Pending only with the %s polled to Pending (or ended), or while the transport is not writeable or the in-flight table is full: queued work is never left behind without a wake-up' % nm,
+             [poll.loc(poll.d)], 'offending exit states (last outcome, w_wait, drain, at_capacity): %s' % badk)
